@@ -25,6 +25,7 @@ import (
 	"github.com/nspcc-dev/neo-go/pkg/core/state"
 	"github.com/nspcc-dev/neo-go/pkg/core/transaction"
 	"github.com/nspcc-dev/neo-go/pkg/io"
+	"github.com/nspcc-dev/neo-go/pkg/smartcontract/nef"
 	"github.com/nspcc-dev/neo-go/pkg/smartcontract/trigger"
 	"github.com/nspcc-dev/neo-go/pkg/util"
 	"github.com/nspcc-dev/neo-go/pkg/vm/stackitem"
@@ -404,7 +405,7 @@ func c17Extremes(name string) [][]byte {
 		mk := func(cnt []byte, n int) []byte { return append(append(bytes.Clone(pre), cnt...), make([]byte, 32*n)...) }
 		out := [][]byte{mk([]byte{0}, 0), mk([]byte{1}, 1), mk([]byte{2}, 1), mk([]byte{0xfd, 1, 0}, 1), mk([]byte{32}, 32), mk([]byte{33}, 33), mk([]byte{0xfd, 0xf4, 1}, 2), mk([]byte{0xfd, 0xf5, 1}, 2), mk([]byte{0xff, 0xff, 0xff, 0xff, 0xff, 0xff, 0xff, 0xff, 0xff}, 1)}
 		if name == "inventory" {
-			out = append(out, []byte{0x00, 0}, []byte{0xff, 1})
+			out = append(out, []byte{0x00, 0}, []byte{0xff, 1}, mk([]byte{0xfd, 0xf4, 1}, 500), mk([]byte{0xfd, 0xf5, 1}, 501)) // the largest accepted, and one more
 		}
 		return out
 	case "headers", "mptdata", "addrlist":
@@ -417,7 +418,7 @@ func c17Extremes(name string) [][]byte {
 			pre = append(pre, 0) // empty user agent
 		}
 		mk := func(caps ...byte) []byte { return append(bytes.Clone(pre), caps...) }
-		out := [][]byte{mk(0), mk(1, 1, 0x50, 0), mk(2, 1, 1, 0, 1, 2, 0), mk(2, 1, 1, 0, 2, 2, 0), mk(2, 0x10, 1, 0, 0, 0, 0x10, 2, 0, 0, 0), mk(1, 0x11, 0), mk(1, 0x11, 1), mk(2, 0x11, 0, 0x11, 0),
+		out := [][]byte{mk(0), mk(1, 1, 0x50, 0), mk(2, 1, 1, 0, 1, 2, 0), mk(2, 1, 1, 0, 2, 2, 0), mk(2, 2, 1, 0, 2, 2, 0), mk(3, 2, 1, 0, 1, 5, 0, 2, 2, 0), mk(2, 0x10, 1, 0, 0, 0, 0x10, 2, 0, 0, 0), mk(1, 0x11, 0), mk(1, 0x11, 1), mk(2, 0x11, 0, 0x11, 0),
 			mk(1, 3, 0), mk(1, 3, 5), mk(2, 3, 0, 3, 0), mk(2, 0xf0, 0, 0xf0, 1, 9), mk(1, 0x77, 0xfd, 1, 0, 9), mk(33), mk(append([]byte{32}, bytes.Repeat([]byte{0xf1, 0}, 32)...)...), mk(append([]byte{33}, bytes.Repeat([]byte{0xf1, 0}, 33)...)...)}
 		if name == "version" {
 			ua := func(n int) []byte {
@@ -463,7 +464,25 @@ func c17Extremes(name string) [][]byte {
 			cat(hd(1, 0xfd, 0x00, 0x08), make([]byte, 2048), tail), cat(hd(1, 0xfd, 0x01, 0x08), make([]byte, 2049), tail), cat(hd(1, 0), []byte{1}, make([]byte, 20), []byte{0, 0x40, 0}, []byte{0}),
 			cat(hd(1, 0), []byte{1}, make([]byte, 20), []byte{0, 0x41, 1, 0x60}, []byte{0}), cat(hd(1, 0), []byte{0, 3, 'e', 'r', 'r'})}
 	case "nef":
-		return [][]byte{{0x4e, 0x45, 0x46, 0x33}, {0x4e, 0x45, 0x46, 0x34}, make([]byte, 80)}
+		// well-formed files (right checksum) that break one decode-time rule each: empty script, method "_x", call flags 0x10
+		var out [][]byte
+		for k := 0; k < 4; k++ {
+			f, _ := nef.NewFile([]byte{0x11, 0x40})
+			f.Tokens = []nef.MethodToken{{Hash: util.Uint160{1}, Method: "m", ParamCount: 1, HasReturn: true, CallFlag: 15}}
+			switch k {
+			case 1:
+				f.Script = []byte{}
+			case 2:
+				f.Tokens[0].Method = "_x"
+			case 3:
+				f.Tokens[0].CallFlag = 0x10
+			}
+			f.Checksum = f.CalculateChecksum()
+			if b, err := f.BytesLong(); err == nil {
+				out = append(out, b)
+			}
+		}
+		return append(out, [][]byte{{0x4e, 0x45, 0x46, 0x33}, {0x4e, 0x45, 0x46, 0x34}, make([]byte, 80)}...)
 	case "p2pmessage":
 		return [][]byte{{0, 1, 0}, {0, 0x10, 0}, {0, 0x25, 0}, {0, 0x32, 0}, {0, 0x18, 0}, {0, 0x00, 0}, {1, 1, 0}, {0xff, 1, 0}, {0, 0x99, 1, 0}, {0, 0x2f, 1, 0}, {0, 0x18, 12, 1, 0, 0, 0, 2, 0, 0, 0, 3, 0, 0, 0},
 			{0, 0x18, 13, 1, 0, 0, 0, 2, 0, 0, 0, 3, 0, 0, 0, 9}, {0, 0x18, 11, 1, 0, 0, 0, 2, 0, 0, 0, 3, 0, 0}, {0, 0x18, 0xfd, 12, 0, 1, 0, 0, 0, 2, 0, 0, 0, 3, 0, 0, 0}, {2, 0x19, 12, 1, 0, 0, 0, 2, 0, 0, 0, 3, 0, 0, 0},
@@ -688,7 +707,7 @@ func (x *c17Runner) runCase(kind string, in c17Input) {
 		}
 		// (a decode that allocated megabytes read a length or count in the millions: the Coq evaluation would have to build
 		//  that number in unary; such inputs - refused for lack of data a moment later - are checked directly only)
-		if !ok || !modelled || len(input) > 6000 || res.AllocKB > 2048 || c17UnboundedCount(in.Type, input) || (!res.OK && c17ECErr.MatchString(res.Err)) {
+		if !ok || !modelled || len(input) > 17000 || res.AllocKB > 2048 || c17UnboundedCount(in.Type, input) || (!res.OK && c17ECErr.MatchString(res.Err)) {
 			co.hist["dec/"+tag+"(direct only)"]++
 			return
 		}
@@ -705,7 +724,7 @@ func (x *c17Runner) runCase(kind string, in c17Input) {
 			term = fmt.Sprintf("%s %s %s", ctor, coqBytes(input), impl)
 		} else if in.Type == "p2pmessage" {
 			dz := c17FrameDecompressed(input)
-			if c17FrameUnmodelled(input) || (input[0]&1 == 1 && dz == "None" && res.OK) {
+			if c17FrameUnmodelled(input) || (len(input) > 0 && input[0]&1 == 1 && dz == "None" && res.OK) {
 				co.hist["dec/"+tag+"(direct only)"]++ // a command outside the frame model, or a decompressed payload too long for a term
 				return
 			}
